@@ -27,10 +27,14 @@ ASSUMPTIONS = ['values are integers or one reference; the literal / layout gramm
 # universe spec: dotted module -> {'funcs': [...], 'classes': {name: {'methods': [...], 'nested': [...]}}}
 UNIVERSE = {
     'pkga': {}, 'pkga.util': {'funcs': ['f', 'g'], 'classes': {'C': {'methods': ['meth'], 'nested': ['Inner']}}},
-    'pkgb': {}, 'pkgb.util': {'funcs': ['f'], 'classes': {'C': {'methods': ['meth'], 'nested': []}}},
+    'pkgb': {}, 'pkgb.util': {'funcs': ['f'], 'classes': {'C': {'methods': ['meth', 'meth2'], 'nested': []}}},
+    'pkgc': {}, 'pkgc.util': {'funcs': ['f'], 'classes': {}},
     'top': {'funcs': ['g', 'h'], 'classes': {}},
     'pkga.deep': {}, 'pkga.deep.mod': {'funcs': ['f'], 'classes': {}},
+    'zeta': {'funcs': ['zf'], 'classes': {}}, 'alpha': {}, 'alpha.tools': {'funcs': ['af'], 'classes': {}},
+    'beta': {}, 'beta.tools': {'funcs': ['bf'], 'classes': {}},
 }
+PRE = ['zeta.zf', 'alpha.tools.af', 'beta.tools.bf']      # registered from Python (gin.register), never imported by a config
 
 
 class World:
@@ -114,8 +118,10 @@ IMPORTS = [
     ['import', 'pkgb.util', False, None], ['import', 'top', False, None], ['import', 'top', False, 't'],
     ['import', 'pkga.deep.mod', False, None], ['import', 'pkga.deep.mod', True, None], ['import', 'pkga.deep.mod', False, 'dm'],
     ['import', 'pkga', False, None], ['import', 'nosuch.mod', False, None], ['import', 'top', False, 'gin'],
+    ['import', 'pkgc.util', True, None], ['import', 'top', False, 'util2'], ['import', 'pkgc.util', False, 'util3'],
 ]
-LEAVES = {'pkga.util': ['f', 'g', 'C', 'C.meth', 'C.Inner', 'nope'], 'pkgb.util': ['f', 'C', 'C.meth'], 'top': ['g', 'h'],
+LEAVES = {'pkga.util': ['f', 'g', 'C', 'C.meth', 'C.Inner', 'nope'], 'pkgb.util': ['f', 'C', 'C.meth', 'C.meth2'], 'top': ['g', 'h'],
+          'pkgc.util': ['f'],
           'pkga.deep.mod': ['f'], 'pkga': ['util.f', 'util.C', 'deep.mod.f']}
 
 
@@ -167,6 +173,9 @@ class DynEngine(Engine):
     a1 = ['import', 'pkga.util', False, None]
     a2 = ['import', 'pkga.util', True, 'u']
     return [
+        {'pre': ['zeta.zf', 'beta.tools.bf', 'alpha.tools.af'],
+         'calls': [[DYN, a1, ['bind', '', 'pkga.util.f', 'x', 1]], [['bind', '', 'zeta.zf', 'x', 1]], [['bind', '', 'beta.tools.bf', 'x', 2]],
+                   [['bind', 's1', 'alpha.tools.af', 'x', 3]]]},
         [[DYN, a1, ['bind', '', 'pkga.util.f', 'x', 1], ['bind', 's', 'pkga.util.g', 'y', [[], 'pkga.util.C']]],
          [DYN, a2, ['bind', '', 'u.f', 'z', 2], ['bind', '', 'u.C.meth', 'q', 3], ['bind', '', 'pkga.util.f', 'w', 4]]],
         [[a1, DYN], [['import', '__gin__.dynamic_registration', True, 'dr']], [['import', '__gin__.nosuch', True, None]],
@@ -183,7 +192,8 @@ class DynEngine(Engine):
       if rng.random() < 0.92:
         stmts.append(DYN)
       imps = []
-      for imp in rng.sample(IMPORTS, rng.randint(1, 3)):
+      pool = IMPORTS if rng.random() < 0.7 else [i for i in IMPORTS if i[1].endswith('util') or i[3] in ('util2', 'util3')]
+      for imp in rng.sample(pool, min(len(pool), rng.randint(1, 4))):
         # _IMPORTS is a set: two recorded statements with equal (module, is_from) but different aliases have no defined order
         if all(not (u[1] == imp[1] and u[2] == imp[2] and u[3] != imp[3]) for u in used):
           imps.append(imp)
@@ -208,9 +218,22 @@ class DynEngine(Engine):
         else:
           stmts.append(['block', scope, sel])
       calls.append(stmts)
+    if rng.random() < 0.3:
+      pre = rng.sample(PRE, rng.randint(1, 3))
+      rng.shuffle(pre)
+      for p in pre:                       # bound from Python, in a random order: an import-free 'file'
+        calls.append([['bind', rng.choice(['', 's1']), p, 'x', rng.randint(1, 9)]])
+      return {'pre': pre, 'calls': calls}
     return calls
 
+  @staticmethod
+  def norm(case):
+    if isinstance(case, dict):
+      return case.get('pre', []), case['calls']
+    return [], case
+
   def to_coq(self, case):
+    pre, case = self.norm(case)
     w = World()
     try:
       univ = w.coq_universe()
@@ -236,9 +259,19 @@ class DynEngine(Engine):
           out.append(s)
       return out
     calls = C.clist([C.clist([st(s) for s in block_expand(c)]) if c else '(@nil dstmt)' for c in case])
-    return '(%s, %s)' % (univ, calls)
+    w2 = World()
+    try:
+      pre_c = C.clist(['{| ce_sel := %s; ce_obj := %d; ce_method := false; ce_src := None; ce_home := (%s, %s) |}' %
+                       (C.cstr(p), w2.ids[p], C.cstr(p.rpartition('.')[0]), C.cstr(p.rpartition('.')[2])) for p in pre]) if pre else '(@nil centry)'
+    finally:
+      w2.close()
+    return '(%s, %s, %s)' % (univ, pre_c, calls)
 
   def shrink(self, case):
+    if isinstance(case, dict):
+      for c in self.shrink(case['calls']):
+        yield {'pre': case['pre'], 'calls': c}
+      return
     for i in range(len(case)):
       for j in range(len(case[i])):
         c = [list(x) for x in case]
@@ -248,12 +281,15 @@ class DynEngine(Engine):
       yield case[:i] + case[i + 1:]
 
   def impl(self, case):
+    pre, case = self.norm(case)
     w = World()
     fails, tags = [], []
     try:
       gin = C.fresh_gin()
       cfg = gin.config
       builtin = {k for k, _ in cfg._REGISTRY.items()}  # pylint: disable=protected-access
+      for p in pre:
+        gin.register(w.objs[p])
       obs = []
       for stmts in case:
         try:
@@ -342,6 +378,54 @@ class DynEngine(Engine):
             fails.append(('config-str-selectors-resolve-elsewhere', 'text %r: original %r, re-parsed %r' % (text, sorted(map(str, ok_store.items())), sorted(map(str, st2.items())))))
         except Exception as e:  # pylint: disable=broad-except
           fails.append(('config-str-does-not-parse', '%s: %s; text %r' % (type(e).__name__, str(e)[:200], text)))
+      # (3) a text whose every name is provided by its own imports and exists in the universe is accepted
+      from harness import findings  # pylint: disable=g-import-not-at-top
+      for ci, stmts in enumerate(case):
+        table, dyn, valid = {}, False, True
+        seen_import = False
+        for st in stmts:
+          if st[0] == 'import':
+            if st[1] == '__gin__.dynamic_registration':
+              if seen_import or st[3]:
+                valid = False
+              dyn = True
+            elif st[1].startswith('__gin__'):
+              valid = False
+            else:
+              if st[1] not in UNIVERSE or findings._bound(st) == 'gin':
+                valid = False
+              table[findings._bound(st)] = st
+            seen_import = True
+          else:
+            if not dyn:
+              valid = False      # static lookups depend on what is registered: not judged here
+              break
+            for n in [st[2]] + ([st[4][1]] if st[0] == 'bind' and not isinstance(st[4], int) else []):
+              r = findings._resolve(table, n)
+              if not r or r[0] not in w.objs:
+                valid = False
+        if valid and isinstance(obs[ci], T):
+          fails.append(('valid-statement-rejected', 'call %d raised %s although every name is provided by the text\'s own imports: %r' %
+                        (ci, obs[ci].args[0], render(stmts))))
+      # (5) a configured method receives its bindings when called on an instance built through the registry
+      if all_ok:
+        for (sc, q), d in list(cfg._CONFIG.items()):  # pylint: disable=protected-access
+          if q in builtin or not reg[q].is_method:
+            continue
+          mpaths = [p for p, o in w.objs.items() if o is reg[q].wrapped]
+          if not mpaths:
+            continue
+          cls_obj = w.objs[mpaths[0].rpartition('.')[0]]
+          mname = mpaths[0].rpartition('.')[2]
+          try:
+            with gin.config_scope(sc or None):
+              inst = gin.get_configurable(cls_obj)()
+              got = getattr(inst, mname)()
+            for pname, v in d.items():
+              if isinstance(v, int) and got.get(pname) != v:
+                fails.append(('configured-method-not-injected', '%s/%s.%s = %r, the method received %r' % (sc, q, pname, v, got)))
+          except Exception as e:  # pylint: disable=broad-except
+            fails.append(('configured-method-call-raised', '%s: %s' % (type(e).__name__, str(e)[:200])))
       multi = any(len(v) >= 2 for v in spell.values())
     finally:
       w.close()
